@@ -54,6 +54,9 @@ EXPLANATION += ' R10: every read of the recorded Molden tags (a membership test,
 # --- metadata added after the round-3 refactoring twins
 EXPLANATION += ' R2: the PDB record writers are looked for in dump_one and the helpers it hands the file to. R10: tags may be recorded with `add` or `update`.'
 # --- end metadata round-3 twins
+# --- metadata added for batch 9
+EXPLANATION += ' Added: (R26) the MWFN $Centers reader on a model section (atomic number, core charge and position from their own columns); (R27, borrowed from C01-R19) the atom number heading a Molden [GTO] block. R7 (Molden [MO]): the model section interleaves alpha and beta orbitals.'
+# --- end metadata batch 9
 
 
 def _load_spec():
